@@ -14,10 +14,12 @@ from ..partition import MiniInterp, Opaque, FRESH
 
 LEVEL = "other"
 TECHNIQUE = "stream-filter effect table by branch partition over token types; idiom check of the rebuild loop; small type inference on the sort key"
-CLAIM = ("For every token type the filter yields the token once; only start/empty tags get a new attribute mapping, which is "
-         "filled by inserting each original (key, value) pair under its own key in sorted order, so nothing is lost, merged or "
-         "altered; the sort key replaces a None namespace by '' before comparing, so it is total on mixed namespaces and "
-         "independent of the incoming order.")
+CLAIM = ('For every token type the filter yields the token once; only start/empty tags get a new attribute '
+         'mapping, which is filled by inserting each original (key, value) pair under its own key in sorted '
+         "order, so nothing is lost, merged or altered; the sort key replaces a None namespace by '' before "
+         'comparing, so it is total on mixed namespaces and independent of the incoming order. Every ordering '
+         "call uses the key function; the key function yields (namespace or '', local name) on representative "
+         'keys.')
 NOT_DECIDED = "nothing else in the statement; distinct keys ('', x) and (None, x) sort equal but both are kept (stable order)."
 MODULES = ["filters/alphabeticalattributes.py", "filters/base.py"]
 REL = "filters/alphabeticalattributes.py"
@@ -156,6 +158,7 @@ def thorough(ctx):
 def mutants():
     from ..selftest import TextMutant as T
     return [
+        T("sorted-without-key", REL, "                for name, value in sorted(token[\"data\"].items(),\n                                          key=_attr_key):", "                for name, value in sorted(token[\"data\"].items()):", "R18.2"),
         T("key-none", REL, "    return (attr[0][0] or ''), attr[0][1]", "    return attr[0][0], attr[0][1]", "R18.3"),
         T("key-local-only", REL, "    return (attr[0][0] or ''), attr[0][1]", "    return attr[0][1]", "R18.3"),
         T("merge-by-local", REL, "                    attrs[name] = value", "                    attrs[(None, name[1])] = value", "R18.2"),
